@@ -29,7 +29,8 @@ func findMatches(insts []bytecode.SearchInstruction, all bool, skip int, take in
 	lineNumber := 1
 	columnNumber := 1
 
-	if reader.Size() == 0 {
+	// an empty program (e.g. `exactly 0 'a'`) matches only the empty text: nothing to report
+	if reader.Size() == 0 || len(insts) == 0 {
 		return Matches{}
 	}
 
